@@ -16,6 +16,7 @@ ASSUMPTIONS = ['a time TIMEX is compared by the time it denotes (T15 = T15:00 = 
 
 TX_TIME = re.compile(r'^T(\d{2})(?::(\d{2})(?::(\d{2}))?)?$')
 TX_DT = re.compile(r'^(\d{4}-\d{2}-\d{2})T(\d{2})(?::(\d{2})(?::(\d{2}))?)?$')
+TX_WD = re.compile(r'^XXXX-WXX-(\d)T(\d{2})(?::(\d{2})(?::(\d{2}))?)?$')
 CARRIERS = ['{}', '{}', 'let us meet at {}', 'the call starts {} for everyone', '{}.', '{} is fine , table for 4.']
 AT_CARRIERS = ['at {}', 'let us meet at {}']
 
@@ -68,6 +69,10 @@ def date_part(case):
         monday = ref.date() - dt.timedelta(days=ref.weekday())
         shift = {'next': 7, 'this': 0, 'last': -7}[dk['which']]
         return '%s %s' % (dk['which'], G.EN_WEEKDAYS[dk['wd']].lower()), monday + dt.timedelta(days=shift + dk['wd'])
+    if dk['kind'] == 'bare-weekday':
+        # a bare weekday name has two candidate dates (C09): the latest before and the earliest on/after the reference date
+        fut = ref.date() + dt.timedelta(days=(dk['wd'] - ref.weekday()) % 7)
+        return G.EN_WEEKDAYS[dk['wd']].lower(), [fut - dt.timedelta(days=7), fut]
     off = {'today': 0, 'tomorrow': 1, 'yesterday': -1}[dk['word']]
     return dk['word'], ref.date() + dt.timedelta(days=off)
 
@@ -96,22 +101,31 @@ def run_case(case):
     bucket = case['form'] + ':' + case['marker'] + (':composed' if dp else '')
     ok = len(got) == 1 and G.covers(got[0], q, pos, expr) and got[0]['values'] is not None
     have = set()
+    pairs = set()
     if ok:
         e = got[0]
         if dp:
             ok = e['type'] == 'datetimeV2.datetime'
             for v in e['values']:
-                m = TX_DT.match(v.get('timex') or '')
+                yearless = isinstance(dp[1], list)
+                m = (TX_WD if yearless else TX_DT).match(v.get('timex') or '')
                 val = v.get('value')
                 if not (m and v.get('type') == 'datetime' and isinstance(val, str) and G.ok_datetime(val)):
                     ok = False
                     break
-                tx = (m.group(1), int(m.group(2)), int(m.group(3) or 0), int(m.group(4) or 0))
                 vv = (val[:10], int(val[11:13]), int(val[14:16]), int(val[17:19]))
-                if tx != vv or val[:10] != dp[1].isoformat():
+                if yearless:
+                    # the TIMEX leaves the week open (XXXX-WXX-d): it must name the weekday of the value and the same clock time
+                    wd_ok = int(m.group(1)) == dt.date.fromisoformat(val[:10]).isoweekday()
+                    tx = (val[:10] if wd_ok else 'wrong weekday', int(m.group(2)), int(m.group(3) or 0), int(m.group(4) or 0))
+                else:
+                    tx = (m.group(1), int(m.group(2)), int(m.group(3) or 0), int(m.group(4) or 0))
+                dates_ok = [d.isoformat() for d in dp[1]] if isinstance(dp[1], list) else [dp[1].isoformat()]
+                if tx != vv or val[:10] not in dates_ok:
                     ok = False
                     break
                 have.add(vv[1:])
+                pairs.add(vv)
         else:
             ok = e['type'] == 'datetimeV2.time'
             for v in e['values']:
@@ -126,10 +140,15 @@ def run_case(case):
                     ok = False
                     break
                 have.add(vv)
-        if ok and (have != want or len(e['values']) != len(want)):
+        ndates = len(dp[1]) if dp and isinstance(dp[1], list) else 1
+        if ok and (have != want or len(e['values']) != len(want) * ndates):
             ok = False
+        if ok and dp and isinstance(dp[1], list):
+            # every candidate date must come with every reading: the values are (date, time) PAIRS
+            if pairs != {(d.isoformat(),) + r for d in dp[1] for r in want}:
+                ok = False
     if not ok:
-        vs.append(V('TIME_WRONG', {'query': q, 'ref': case['ref'], 'expected_readings': sorted(want), 'expected_date': dp[1].isoformat() if dp else None,
+        vs.append(V('TIME_WRONG', {'query': q, 'ref': case['ref'], 'expected_readings': sorted(want), 'expected_date': ([d.isoformat() for d in dp[1]] if isinstance(dp[1], list) else dp[1].isoformat()) if dp else None,
                                    'got': got}, bucket=bucket))
     nt = case['h'] in (0, 12) or bool(case.get('m')) or bool(case.get('s')) or bool(dp)
     return R(vs, nontrivial=nt, labels=['form:' + case['form'], 'marker:' + case['marker'], 'composed' if dp else 'time-only',
@@ -176,7 +195,8 @@ def composed_cases():
     dates = st.one_of(
         st.builds(lambda d, l: {'kind': 'abs', 'iso': d.isoformat(), 'layout': l}, G.dates(), st.sampled_from(['iso', 'Month d, yyyy', 'm/d/yyyy'])),
         st.sampled_from(['today', 'tomorrow', 'yesterday']).map(lambda w: {'kind': 'rel', 'word': w}),
-        st.builds(lambda w, i: {'kind': 'weekday', 'which': w, 'wd': i}, st.sampled_from(['next', 'this', 'last']), st.integers(0, 6)))
+        st.builds(lambda w, i: {'kind': 'weekday', 'which': w, 'wd': i}, st.sampled_from(['next', 'this', 'last']), st.integers(0, 6)),
+        st.integers(0, 6).map(lambda i: {'kind': 'bare-weekday', 'wd': i}))
     hm24 = st.builds(lambda h, m: {'h': h, 'm': m, 'marker': 'none', 'form': 'HH:MM'}, st.integers(0, 23), st.integers(0, 59))
     hm12 = st.builds(lambda h, m, mk, stl: {'h': h, 'm': m, 'marker': mk, 'form': 'H:MM', 'mstyle': stl}, st.integers(1, 12),
                      st.sampled_from([0, 5, 30, 59]), st.sampled_from(['am', 'pm']), st.sampled_from([' am', 'am']))
